@@ -485,6 +485,13 @@ impl TermFrom<'_> {
                 ))
             }
         };
+        // A term that matches on the address family alone accepts every route of that family. We
+        // never write one, and reading it as "no ranges installed" would leave it in place.
+        if self.route_filters.is_empty() {
+            return Err(ReadError::Other(
+                anyhow!("'{}' term without any route-filter", self.family).into(),
+            ));
+        }
         self.route_filters
             .iter()
             .map(|route_filter| {
